@@ -775,7 +775,15 @@ orc_x86_insn_output_asm (OrcCompiler *p, OrcX86Insn *xinsn)
     ORC_ASM_CODE(p,"  v%s %s%s%s%s%s\n", xinsn->opcode->name,
         imm_str, src_op, src_2nd_op, src_3rd_op, dst_op);
   } else {
-    ORC_ASM_CODE(p,"  %s %s%s%s\n", xinsn->opcode->name,
+    /* an immediate and a memory operand do not tell the assembler the
+     * operand size: name it when it is not the 32-bit default */
+    const char *suffix = "";
+    if ((xinsn->opcode->type == ORC_X86_INSN_TYPE_IMM8_REGM ||
+         xinsn->opcode->type == ORC_X86_INSN_TYPE_IMM32_REGM) &&
+        xinsn->type != ORC_X86_RM_REG && xinsn->size == 8) {
+      suffix = "q";
+    }
+    ORC_ASM_CODE(p,"  %s%s %s%s%s\n", xinsn->opcode->name, suffix,
         imm_str, src_op, dst_op);
   }
 }
